@@ -211,4 +211,15 @@ theorem dateRange_inside_span (perSec start stop : Int) (num : Nat) (hp : 0 < pe
 
 example : ∃ t, releaseTime divisor 1 0 10 3 1 = some t ∧ (0:Int) ≤ t ∧ t ≤ 10 :=
   inside_span 1 0 10 3 1 (by decide) (by decide) (by decide)
+/-- **ordered**, as a statement about the emitted list: with `start ≤ stop` the `num` dates are pairwise
+non-decreasing in list (= particle) order -/
+theorem dateRange_sorted (perSec start stop : Int) (num : Nat) (hp : 0 < perSec) (h : start ≤ stop) :
+    List.Pairwise (fun a b => ∀ x y, a = some x → b = some y → x ≤ y) (dateRange divisor perSec start stop num) := by
+  unfold dateRange
+  rw [List.pairwise_map]
+  refine List.Pairwise.imp ?_ (List.pairwise_lt_range (n := num))
+  intro i j hij x y hx hy
+  exact monotone_of_nonneg_span perSec start stop num i j hp (spanSeconds_nonneg perSec start stop hp h)
+    (le_of_lt hij) x y hx hy
+
 end C02
